@@ -144,6 +144,11 @@ def check(ctx):
         for k in EXCEPTIONS:
             if label.endswith(k) or lib.fkey(body).replace("<'w, 's>", "") == k or k in mir.strip_generics(body.path):
                 exc = k
+            # the same closure built by a private helper of `once` (the view re-parents the closures of an inlined helper to the
+            # function that builds them): the one that takes the stored FnOnce out of its captured Option
+            elif k.startswith("ReactCommands::once::") and body.kind == "closure" and mir.strip_generics(body.raw.get("root") or "").endswith("ReactCommands::once") \
+                    and k.rsplit("::", 1)[0] not in mir.strip_generics(body.path):
+                exc = k
         if counts == {1}:
             ctx.ok("C04.b", key, "%s:%d" % (body.file, body.line), "every returning path consumes the cleanup exactly once")
         elif exc and counts == {0, 1} and zero_only_on_taken_none(body, L, res) and exception_premise_holds(ctx, exc):
